@@ -5,4 +5,11 @@ cd /verif/coq || exit 2
 mods=$(grep '\.v$' _CoqProject | sed 's/\.v$//' | sed 's/^/MV./')
 ( time timeout 7200 coqchk -silent -o -Q . MV $mods ) > /verif/notes/coqchk.txt 2>&1
 echo "exit=$?" >> /verif/notes/coqchk.txt
-tail -40 /verif/notes/coqchk.txt
+# the translated models and their equivalence proofs (compiled here against the committed snapshots)
+cd /verif/coqgen || exit 2
+for f in $(grep '\.v$' _CoqProject); do timeout 900 coqc -Q ../coq MV -Q . MVG $f > /dev/null 2>&1 || echo "coqgen: $f does not compile" >> /verif/notes/coqchk.txt; done
+gmods=$(grep '\.v$' _CoqProject | sed 's/\.v$//' | sed 's/^/MVG./')
+( time timeout 7200 coqchk -silent -o -Q ../coq MV -Q . MVG $gmods ) > /verif/notes/coqchk_gen.txt 2>&1
+echo "exit=$?" >> /verif/notes/coqchk_gen.txt
+rm -f *.vo *.vok *.vos *.glob .*.aux
+tail -12 /verif/notes/coqchk.txt; tail -8 /verif/notes/coqchk_gen.txt
